@@ -49,6 +49,15 @@ func runC08(t *testing.T, seed uint64, m *Mask) *Report {
 			if len(op.Data) > 60 {
 				op.Data = op.Data[:60]
 			}
+			// some handlers answer with an error status, and some produce a result no codec can encode (the first
+			// reply write fails and the framework falls back to a 500 reply): both are genuine replies that a
+			// graceful close must still deliver
+			switch k := r.Intn(10); {
+			case k == 0:
+				op.Route = "/std/weird"
+			case k == 1:
+				op.HCode, op.HStatus = int32(1000+r.Intn(50)), [3]string{"", "scripted", "cause"}
+			}
 			op.ToSrv = side == 0 // side 0: issued by A (the closing side) towards B
 			op.Caller = j
 			op.HYield = r.Intn(12)
@@ -174,11 +183,17 @@ func runC08(t *testing.T, seed uint64, m *Mask) *Report {
 				continue
 			}
 			h := hs[op.Tag]
+			if op.OK && op.Route == "/std/weird" {
+				continue // a lenient codec (form, xml) managed to encode something: not judged here
+			}
 			if op.OK {
 				if op.Result.Tag != op.Tag || op.Result.Data != world.ExpectData(op) {
 					e.Fail("C08/ok-without-own-reply", "op %s (%s): OK but result %q", op.Tag, info, op.ResultStr)
 				}
 				continue
+			}
+			if h != nil && ((op.Route == "/std/weird" && op.Code == erpc.CodeInternalServerError) || (op.HCode != 0 && op.Code == op.HCode)) {
+				continue // the handler's genuine error reply arrived
 			}
 			if cutFired {
 				continue // a lost connection may fail any call in flight
